@@ -165,3 +165,22 @@ def _occurrences(subject, search):
 
 def _spec_replaceAll(subject, search, repl):
     return _spec_replace(subject, search, repl, True)
+
+
+@groups.group(id="C16.trim-set", prop="C16", kind="K4", functions=["microjs.values:JS_WHITESPACE", "microjs.vm:VM._make_string_method.<trim>"])
+def c16_trim_set(tier="quick", seed=0):
+    """exhaustion over every BMP code point c: trim / trimStart / trimEnd strip c exactly when c is an ECMAScript WhiteSpace
+    or LineTerminator (22.1.3.32 TrimString) -- through the real methods"""
+    from microjs import Context
+    from specs.es_core import ES_WHITESPACE
+    c = Context()
+    got = c.eval("var o = []; for (var cp = 0; cp < 65536; cp++) { if (cp >= 0xD800 && cp <= 0xDFFF) continue; var ch = String.fromCharCode(cp); var s = ch + 'x' + ch; "
+                 "o.push((s.trim() === 'x' ? 1 : 0) + (s.trimStart() === 'x' + ch ? 2 : 0) + (s.trimEnd() === ch + 'x' ? 4 : 0) + (s.trim() === s ? 8 : 0)); } o")
+    cps = [cp for cp in range(65536) if not (0xD800 <= cp <= 0xDFFF)]
+    bad = None
+    for cp, g in zip(cps, got):
+        want = 7 if chr(cp) in ES_WHITESPACE else 8
+        if g != want and bad is None:
+            bad = (cp, g, want)
+    return [ob("C16.trim-set", bad is None, "K4", f"{len(cps)} code points x 3 methods" if bad is None else f"U+{bad[0]:04X}: flags {bad[1]}, expected {bad[2]} (1 trim, 2 trimStart, 4 trimEnd strip it; 8 left alone)",
+               witness=(f"(String.fromCharCode({bad[0]}) + 'x' + String.fromCharCode({bad[0]})).trim()" if bad else None), confirmed=True if bad else None, domain=len(cps) * 3)]
